@@ -6,16 +6,19 @@ package query
 //verif:setup VerifC02Setup1
 //verif:harness VerifC02CsvRoundTrip mode=bv tier=quick split=10
 //verif:harness VerifC02SingleColumn mode=bv tier=quick split=2
+//verif:harness VerifC02LtsvJsonRoundTrip mode=bv tier=quick split=10
+//verif:setup VerifC02Setup2
+//verif:harness VerifC02RetriedCommit mode=bv tier=quick split=4
 
 import (
 	"github.com/mithrandie/csvq/lib/parser"
 	"github.com/mithrandie/csvq/lib/value"
 )
 
-var verifC02Create, verifC02Insert, verifC02Select [3][]parser.Statement
+var verifC02Create, verifC02Insert, verifC02Select [5][]parser.Statement
 
 func VerifC02Setup() {
-	for i, name := range []string{"`x.csv`", "`x.tsv`", "`x.ltsv`"} {
+	for i, name := range []string{"`x.csv`", "`x.tsv`", "`x.ltsv`", "`x.json`", "`x.jsonl`"} {
 		verifC02Create[i] = verifParse("create table " + name + " (c1, c2);")
 		verifC02Insert[i] = verifParse("insert into " + name + " values (@a, @b), ('k', 'z'); commit;")
 		verifC02Select[i] = verifParse("select c1, c2 from " + name + ";")
@@ -24,11 +27,11 @@ func VerifC02Setup() {
 
 // verifC02Cell: NULL, or a text of 0..2 symbolic bytes (thorough 0..3), each byte from the set of
 // characters the formats treat specially plus representatives of ordinary text.
-func verifC02Cell(tag string) (value.Primary, string, bool) {
+func verifC02Cell(tag string, quickLen, thoroughLen int) (value.Primary, string, bool) {
 	if verifBool(tag + ".null") {
 		return value.NewNull(), "", true
 	}
-	n := verifChoice(tag+".len", verifBound(3, 4))
+	n := verifChoice(tag+".len", verifBound(quickLen+1, thoroughLen+1))
 	b := make([]byte, n)
 	for i := range b {
 		c := verifByte(tag)
@@ -45,9 +48,22 @@ func verifC02Cell(tag string) (value.Primary, string, bool) {
 // the table reloads with the same number of records and fields and the same text in every cell
 // (NULL and the empty text coincide).
 func VerifC02CsvRoundTrip() {
-	format := verifChoice("format", verifBound(2, 3)) // csv, tsv (thorough: ltsv)
-	a, ta, na := verifC02Cell("a")
-	b, tb, nb := verifC02Cell("b")
+	format := verifChoice("format", 2) // csv, tsv
+	a, ta, na := verifC02Cell("a", 2, 3)
+	b, tb, nb := verifC02Cell("b", 2, 3)
+	verifC02RoundTrip(format, a, ta, na, b, tb, nb)
+}
+
+// The same round trip through the LTSV, JSON and JSON Lines encoders and loaders (cells of 0..1
+// bytes, thorough 0..2).
+func VerifC02LtsvJsonRoundTrip() {
+	format := 2 + verifChoice("format", 3) // ltsv, json, jsonl
+	a, ta, na := verifC02Cell("a", 1, 2)
+	b, tb, nb := verifC02Cell("b", 1, 2)
+	verifC02RoundTrip(format, a, ta, na, b, tb, nb)
+}
+
+func verifC02RoundTrip(format int, a value.Primary, ta string, na bool, b value.Primary, tb string, nb bool) {
 	tc, nc := "z", false
 	tx := verifNewTx()
 	tx.Flags.Quiet = true
@@ -60,7 +76,7 @@ func VerifC02CsvRoundTrip() {
 	_, err = proc.Execute(verifCtx(), verifC02Insert[format])
 	_ = proc.AutoRollback()
 	_ = proc.ReleaseResourcesWithErrors()
-	name := [3]string{"x.csv", "x.tsv", "x.ltsv"}[format]
+	name := [5]string{"x.csv", "x.tsv", "x.ltsv", "x.json", "x.jsonl"}[format]
 	if err != nil {
 		verifAssert("a refused write leaves no table behind", !verifFileExists(name))
 		verifReach("refused")
@@ -113,7 +129,7 @@ func VerifC02Setup1() {
 
 // The same round trip for a table with a single column (a record is then a bare line).
 func VerifC02SingleColumn() {
-	a, ta, na := verifC02Cell("a")
+	a, ta, na := verifC02Cell("a", 2, 3)
 	tx := verifNewTx()
 	tx.Flags.Quiet = true
 	proc := NewProcessor(tx)
@@ -150,3 +166,65 @@ func VerifC02SingleColumn() {
 	verifObserve("records", int64(v.RecordLen()))
 	verifReach("end")
 }
+
+var verifC02Retry1, verifC02Retry2, verifC02RetrySelA, verifC02RetrySelL []parser.Statement
+
+func VerifC02Setup2() {
+	verifC02Retry1 = verifParse("update a set v = 'b'; update l set v = @c; commit;")
+	verifC02Retry2 = verifParse("update l set v = 'ok'; commit;")
+	verifC02RetrySelA = verifParse("select id, v from a;")
+	verifC02RetrySelL = verifParse("select k, v from l;")
+}
+
+// A COMMIT that is refused (an LTSV value that cannot be encoded) after another updated table was
+// already encoded, then retried in the same transaction once the value is repaired (what the
+// interactive shell allows): the tables written by the successful COMMIT read back as updated, in
+// whichever order the updated tables are encoded.
+func VerifC02RetriedCommit() {
+	verifMapOrder(true)
+	verifFileWrite("a.csv", "id,v\n1,a\n")
+	verifFileWrite("l.ltsv", "k:7\tv:o\n")
+	c, tc, nc := verifC02Cell("c", 1, 2)
+	tx := verifNewTx()
+	tx.Flags.Quiet = true
+	proc := NewProcessor(tx)
+	verifVar(proc.ReferenceScope, "c", c)
+	_, err := proc.Execute(verifCtx(), verifC02Retry1)
+	want := tc
+	if err != nil {
+		verifReach("refused")
+		_, err = proc.Execute(verifCtx(), verifC02Retry2)
+		verifAssert("the repaired transaction commits", err == nil)
+		want, nc = "ok", false
+	}
+	_ = proc.AutoRollback()
+	_ = proc.ReleaseResourcesWithErrors()
+	if err != nil {
+		return
+	}
+	verifAssert("the CSV table is written whole", verifFileRead("a.csv") == "id,v\n1,b\n")
+	tx2 := verifNewTx()
+	tx2.Flags.Quiet = true
+	proc2 := NewProcessor(tx2)
+	_, err = proc2.Execute(ContextForStoringResults(verifCtx()), verifC02RetrySelA)
+	verifAssert("the CSV table loads", err == nil && len(tx2.SelectedViews) == 1)
+	_, err = proc2.Execute(ContextForStoringResults(verifCtx()), verifC02RetrySelL)
+	verifAssert("the LTSV table loads", err == nil && len(tx2.SelectedViews) >= 1)
+	if err != nil || len(tx2.SelectedViews) < 1 {
+		return
+	}
+	l := tx2.SelectedViews[len(tx2.SelectedViews)-1]
+	verifAssert("the LTSV table has its record", l.RecordLen() == 1 && l.FieldLen() == 2)
+	if l.RecordLen() == 1 && l.FieldLen() == 2 {
+		p := l.RecordSet[0][1][0]
+		if value.IsNull(p) {
+			verifAssert("the LTSV cell reads back", nc || want == "")
+		} else {
+			s, ok := p.(*value.String)
+			verifAssert("the LTSV cell reads back", ok && ((nc && s.Raw() == "") || (!nc && s.Raw() == want)))
+		}
+	}
+	_ = proc2.ReleaseResourcesWithErrors()
+	verifReach("end")
+}
+
